@@ -422,7 +422,7 @@ def classify(prop):
 def run_instance(ctx, inst):
     r = Result(inst)
     t0 = time.time()
-    timeout = inst.timeout or (150 if ctx.tier == "quick" else 900)
+    timeout = inst.timeout or (400 if ctx.tier == "quick" else 900)
     try:
         gb = build_instance(ctx, inst, False)
         gbw = build_instance(ctx, inst, True) if inst.witness else None
